@@ -9,7 +9,7 @@ From Coq Require Import QArith List Arith Bool PeanoNat.
 Import ListNotations.
 Require Import Fggs.Model.SCC Fggs.Model.SumProduct Fggs.Model.SumProductCheck
                Fggs.Model.EReal Fggs.Model.Trop Fggs.Model.Kleene.
-Require Import Fggs.Proofs.SP_mono Fggs.Proofs.Kleene_proofs Fggs.Proofs.Kleene_control.
+Require Import Fggs.Proofs.SP_mono Fggs.Proofs.Kleene_proofs Fggs.Proofs.Kleene_control Fggs.Proofs.Kleene_linear.
 Require Import Fggs.Model.Semiring.
 Local Open Scope nat_scope.
 
@@ -313,3 +313,48 @@ Theorem C02_newton_old_same_state :
   forall A (body : A -> A * bool) kmax x, fst (newton_loop_old body kmax x) = fst (newton_loop body kmax x).
 Proof. exact (@newton_old_same_state). Qed.
 Print Assumptions C02_newton_old_same_state.
+
+(** * 5. linear recursion *)
+(** [linear] raises exactly when some rule of the component has >= 2 component edges,
+    i.e. when [max_rhs] exceeds 1 *)
+Theorem C02_linear_raises_iff :
+  forall G comp, linear_raises G comp = true <-> 2 <= max_rhs G comp.
+Proof. exact linear_raises_max_rhs. Qed.
+Print Assumptions C02_linear_raises_iff.
+
+(** otherwise the component's equations are affine,  F x = J0 . x + F0,  with F0 and J0 as
+    computed by [linear] (definitions [lin_F0], [lin_J0] in Proofs/Kleene_linear.v:
+    J0[n, m][xi, eta] = sum over the rules of n whose single component edge is labelled m of
+    the sum-product of the rule's OTHER edges with external nodes ext ++ that edge's nodes, at
+    xi ++ eta; F0[n][xi] = sum over the rules of n without component edge of their sum-product;
+    [inp] gives the values of the nonterminals outside the component).  Only the
+    commutative-semiring laws are needed. *)
+Theorem C02_linear_affine :
+  forall R (o : sr_ops R), sr_ring o ->
+  forall G (w inp : env (R:=R)) comp,
+    wf_grammar G = true -> (forall m, In m comp -> is_term G m = false) ->
+  forall (x : env (R:=R)) n xi,
+    NoDup comp -> max_rhs G comp <= 1 -> In n comp -> In xi (all_assts (lshape G n)) ->
+    step o G w (fun l => if mem comp l then x l else inp l) n xi
+    = add o (sumS o comp (fun m => sumS o (all_assts (lshape G m))
+                                        (fun eta => mul o (lin_J0 o G w inp comp n m xi eta) (x m eta))))
+            (lin_F0 o G w inp comp n xi).
+Proof. exact (@step_linear_affine). Qed.
+Print Assumptions C02_linear_affine.
+
+(** one rule with exactly one component edge [ed]: leave-that-edge-out product *)
+Theorem C02_rule_affine :
+  forall R (o : sr_ops R), sr_ring o ->
+  forall G (w inp : env (R:=R)) comp, (forall m, In m comp -> is_term G m = false) ->
+  forall r ed (x : env (R:=R)) xi,
+    wf_rule G r = true -> filter (fun e => mem comp (fst e)) (r_edges r) = [ed] ->
+    length xi = length (r_ext r) ->
+    rule_val o G (fun l => if is_term G l then w l else if mem comp l then x l else inp l) r xi
+    = sumS o (all_assts (lshape G (fst ed)))
+             (fun eta => mul o (rule_val o G (fun l => if is_term G l then w l else inp l)
+                                         {| r_lhs := r_lhs r; r_nodes := r_nodes r;
+                                            r_edges := filter (fun e => negb (mem comp (fst e))) (r_edges r);
+                                            r_ext := r_ext r ++ snd ed |} (xi ++ eta))
+                               (x (fst ed) eta)).
+Proof. exact (@rule_val_affine). Qed.
+Print Assumptions C02_rule_affine.
